@@ -22,8 +22,8 @@ REPO = os.environ.get('VERIF_REPO', '/repo')
 COQ = os.path.join(VERIF, 'coq')
 CACHE = os.path.join(VERIF, 'cache')
 OCAML_BUILD = os.path.join(CACHE, 'ocaml')
-EVIDENCE = os.path.join(VERIF, 'evidence')
-REPLAYS = os.path.join(VERIF, 'replays')
+EVIDENCE = os.environ.get('VERIF_EVIDENCE_DIR') or os.path.join(VERIF, 'evidence')
+REPLAYS = os.environ.get('VERIF_REPLAYS_DIR') or os.path.join(VERIF, 'replays')
 PY = '/venv/bin/python'
 
 ALLOWED_AXIOMS: set[str] = set()   # target: every theorem closed under the global context
